@@ -14,6 +14,9 @@ Enumerated completely:
     ptycho_utils.shift_array for every integer shift; "integer fitted origin -> circular roll" through BOTH classes (dataset
     model: public preprocess on patterns whose centre of mass is exactly integer, read back through centered_amplitudes /
     centered_intensities);
+  * input dtype {float16 (incl. pattern totals beyond the float16 range), float32, float64, uint8, uint16, int32, int64, bool}
+    x memory layout {C, Fortran, transposed view, strided slice} of the 4-D stack x both classes x both dataset paths x every
+    batch size, against the same float64 weighted mean of the stored values (a dtype the library rejects on HEAD is counted);
   * call histories: every single call / ordered pair (thorough: triple) of calculate_origin, shift_origin_to (corner and
     other targets), fit_origin_background and preprocess on models sharing a detector shape, modules re-imported before each
     history, the LAST call judged ("a result must not depend on earlier calls"), inputs bit-identical afterwards.
@@ -41,7 +44,8 @@ CLAIM = (
     "mass is exactly planar) are returned by fit_origin and fit_origin_background to 1e-4; shift_origin_to equals np.roll of each "
     "pattern for every integer origin of the detector, uniform or per pattern, at every batch size, also on detector lengths "
     "with large prime factors; the dataset model's centred amplitudes/intensities for integer fitted origins equal the same roll "
-    "and agree with the origin model; no result depends on earlier calls (call histories on freshly imported modules). Exploration is the right level: "
+    "and agree with the origin model; the centre of mass is the weighted mean of the stored values for every accepted input dtype "
+    "and memory layout on every path; no result depends on earlier calls (call histories on freshly imported modules). Exploration is the right level: "
     "the only schedule freedom is the batch size and it is enumerated completely; everything else is a configuration lattice."
 )
 NOTE = (
@@ -57,7 +61,8 @@ RULE = (
     "actually splits the set or the row and column centres differ by > 0.05 px (a swap would show); a shift point when the roll is "
     "not the identity; distinct = distinct (configuration, batch size, path). Shift parts also on detectors {13,16,17,26}x{8,13} "
     "both ways (scan (2,3)); shift_array: every integer shift x 2 branches; integer-origin roll: scans x detectors x 3 origin/fit "
-    "kinds x both classes x (vectorized, bilinear); call histories: all singles and ordered pairs (thorough: triples) over 20 calls."
+    "kinds x both classes x (vectorized, bilinear); call histories: all singles and ordered pairs (thorough: triples) over 20 calls; input dtype (8, two count levels) x layout (4) "
+    "x 2 scans x 2 detectors x all paths and batch sizes."
 )
 
 # ----------------------------------------------------------------------------- tolerances
@@ -888,6 +893,176 @@ def eval_history(item, seed=0, depth=2):
     return t
 
 
+# ----------------------------------------------------------------------------- part 7: input dtype x memory layout
+# The centre of mass of a stack stored as float16 / float32 / float64 / uint8 / uint16 / int32 / int64 / bool, in C, Fortran,
+# transposed-view or strided-slice layout, is judged against the same float64 weighted mean of the stored values, through both
+# classes, both dataset paths and every batch size. Every dtype below is accepted by both constructors on HEAD and delivered
+# with float32 precision (worst observed 1.1e-7 px over the whole part); the seeded half-precision accumulation gives 1.5e-3 px
+# at low counts (centre of mass 0 once a pattern total exceeds 65504) -> bound 2e-5 px (>= 20 x HEAD, <= 1/20 of the effect).
+TOL_DTYPE = 2e-5
+DTYPES = ["float16", "float32", "float64", "uint8", "uint16", "int32", "int64", "bool"]
+DTYPES_REJECTED_ON_HEAD = ["complex64"]  # counted, not flagged
+DTYPE_HIGH_SCALE = {"float16": 160, "float32": 160, "float64": 160, "uint8": 8, "uint16": 2000, "int32": 10000, "int64": 10000}
+LAYOUTS = ["C", "F", "transposed_view", "strided_slice"]
+# On HEAD CenterOfMassOriginModel.calculate_origin raises RuntimeError ("view size is not compatible with input tensor's size and
+# stride") for Fortran-ordered and transposed-view stacks whenever the scan has two axes > 1 (it uses .view on the tensor that
+# shares the array's strides), for every dtype. Rejections on HEAD are counted, not flagged; when the call runs it is judged.
+LAYOUTS_REJECTED_ON_HEAD = {"CenterOfMassOriginModel.calculate_origin": ["F", "transposed_view"]}
+DT_SCANS = [(2, 3), (1, 5)]
+DT_DETS = [(6, 8), (7, 7)]
+
+
+def dtype_data(scan, det, dtype, member):
+    """integer counts (exact in every dtype of the alphabet), asymmetric in (row, column) and different for every pattern"""
+    H, W = det
+    N = scan[0] * scan[1]
+    kr, kc = np.mgrid[:H, :W]
+    k = np.arange(N).reshape(scan)[..., None, None]
+    if dtype == "bool":
+        a = ((kr + 2 * kc + k) % 3 != 0) | ((kr == 1) & (kc == 2))
+        return a
+    counts = 1 + 2 * kr + (kc * kc) % 7 + ((kr + 2 * kc + k) % 5) + k
+    if member == "high":
+        counts = counts * DTYPE_HIGH_SCALE.get(dtype, 160)
+    a = counts.astype(dtype)
+    if not np.array_equal(a.astype(np.float64 if not np.iscomplexobj(a) else np.complex128).real, counts.astype(np.float64)):
+        raise Broken(f"dtype data builder: counts are not exactly representable in {dtype} ({member})")
+    if dtype == "float16" and member == "high" and not np.any(counts.sum((-2, -1)) > 65504):
+        raise Broken("dtype data builder: the float16 'high' member has no pattern whose total exceeds the float16 range")
+    return a
+
+
+def apply_layout(a, layout):
+    if layout == "C":
+        return np.ascontiguousarray(a)
+    if layout == "F":
+        return np.asfortranarray(a)
+    if layout == "transposed_view":
+        return np.ascontiguousarray(a.transpose(3, 2, 1, 0)).transpose(3, 2, 1, 0)
+    if layout == "strided_slice":
+        big = np.zeros((a.shape[0], a.shape[1], 2 * a.shape[2], a.shape[3] + 3), dtype=a.dtype)
+        big[:, :, ::2, 1:-2] = a
+        return big[:, :, ::2, 1:-2]
+    raise ValueError(layout)
+
+
+def dtype_case(case, verbose=False):
+    """case = {scan, det, dtype, member, layout}"""
+    from quantem.core.datastructures import Dataset4dstem
+    from quantem.diffractive_imaging.origin_models import CenterOfMassOriginModel
+
+    scan, det, dt, member, layout = tuple(case["scan"]), tuple(case["det"]), case["dtype"], case["member"], case["layout"]
+    sm = seams()
+    N = scan[0] * scan[1]
+    arr = apply_layout(dtype_data(scan, det, dt, member), layout)
+    snap, strides = arr.copy(), arr.strides
+    fails, points = [], []
+    base = {"part": "dtype", "scan": list(scan), "det": list(det), "dtype": dt, "member": member, "layout": layout}
+
+    def mk():
+        return Dataset4dstem.from_array(arr, sampling=[1, 1, 0.1, 0.1], units=["A", "A", "A^-1", "A^-1"])
+
+    if dt in DTYPES_REJECTED_ON_HEAD:
+        try:
+            CenterOfMassOriginModel.from_dataset(mk()).calculate_origin(None)
+            run_preprocess_from(arr, True, sm)
+            return [], [(["accepted_although_rejected_on_HEAD"], False)], "accepted"
+        except Exception:
+            return [], [(["rejected"], False)], "rejected"
+    a64 = snap.astype(np.float64)
+    H, W = det
+    kr, kc = np.mgrid[:H, :W]
+    tot = a64.sum((-2, -1))
+    er, ec = (a64 * kr).sum((-2, -1)) / tot, (a64 * kc).sum((-2, -1)) / tot
+
+    def judge(path, got_r, got_c, extra):
+        got_r = np.asarray(got_r, dtype=np.float64).reshape(scan)
+        got_c = np.asarray(got_c, dtype=np.float64).reshape(scan)
+        with np.errstate(invalid="ignore"):
+            d = max(float(np.max(np.abs(got_r - er))), float(np.max(np.abs(got_c - ec))))
+        if not (d <= TOL_DTYPE):
+            ix = np.unravel_index(int(np.nanargmax(np.nan_to_num(np.abs(got_r - er) + np.abs(got_c - ec), nan=np.inf))), scan)
+            fails.append(({"relation": "com_equals_weighted_mean", "path": path, "dtype": dt}, dict(base, path=path, **extra), f"{path} {extra} on a {dt} stack ({member} counts, pattern totals up to {tot.max():.0f}, layout {layout}, scan {scan} det {det}): centre of mass differs from the float64 weighted mean by {d:.3e} px; pattern {tuple(int(i) for i in ix)}: got (row {got_r[ix]:.5f}, col {got_c[ix]:.5f}), expected (row {er[ix]:.5f}, col {ec[ix]:.5f})"))
+        if verbose:
+            print(f"    {path:42s} {str(extra):22s} max deviation {d:.3e} px")
+        return np.stack([got_r, got_c])
+
+    def attempt(path, fn, extra=None):
+        try:
+            return fn()
+        except Broken:
+            raise
+        except Exception as e:
+            fails.append(({"relation": "dtype_accepted", "path": path, "dtype": dt}, dict(base, path=path, **(extra or {})), f"{path} {extra or ''} raised {type(e).__name__}: {str(e)[:200]} on a {dt} stack (layout {layout}); HEAD accepts this dtype"))
+            return None
+
+    res = {}
+    om = attempt("CenterOfMassOriginModel.from_dataset", lambda: CenterOfMassOriginModel.from_dataset(mk()))
+    if om is not None:
+        for bs in batch_sizes(N):
+            if layout in LAYOUTS_REJECTED_ON_HEAD["CenterOfMassOriginModel.calculate_origin"]:
+                try:
+                    om.calculate_origin(bs)
+                except RuntimeError:
+                    points.append((["om_rejects_layout", bs], False))
+                    continue
+            elif attempt("CenterOfMassOriginModel.calculate_origin", lambda: (om.calculate_origin(bs), 1), {"batch_size": bs}) is None:
+                continue
+            o = om.origin_measured.detach().cpu().numpy().astype(np.float64).reshape(*scan, 2)
+            g = judge("CenterOfMassOriginModel.calculate_origin", o[..., 0], o[..., 1], {"batch_size": bs})
+            if bs is None:
+                res["om"] = g
+            points.append((["om", bs], True))
+    for vec in (True, False) if sm["preprocess_vectorized"] else (True,):
+        path = f"preprocess(vectorized={vec}).com_measured"
+        r = attempt(path, lambda: run_preprocess_from(arr, vec, sm))
+        if r is None:
+            continue
+        res[vec] = judge(path, r[0], r[1], {})
+        points.append((["ds", vec], True))
+    for a, b, rel_, name in ((True, False, "paths_agree", "preprocess vectorized vs looped"), (True, "om", "classes_agree", "preprocess(vectorized=True) vs calculate_origin"), (False, "om", "classes_agree", "preprocess(vectorized=False) vs calculate_origin")):
+        if a in res and b in res:
+            with np.errstate(invalid="ignore"):
+                d = float(np.max(np.abs(res[a] - res[b])))
+            if not (d <= TOL_DTYPE):
+                fails.append(({"relation": rel_, "path": name, "dtype": dt}, dict(base, path=name), f"{name} disagree by {d:.3e} px on a {dt} stack ({member} counts, layout {layout}, scan {scan} det {det})"))
+    if not (np.array_equal(arr, snap) and arr.strides == strides and arr.dtype == snap.dtype):
+        fails.append(({"relation": "inputs_unmodified", "path": "4-D input array", "dtype": dt}, dict(base, path="4-D input array"), f"the {dt} array handed to the models (layout {layout}) was modified"))
+    return _tag(fails), points, "accepted"
+
+
+def run_preprocess_from(arr, vectorized, sm):
+    """preprocess on a dataset built from the array AS GIVEN (dtype and layout preserved up to the library's own conversions)"""
+    from quantem.core.datastructures import Dataset4dstem
+    from quantem.diffractive_imaging.dataset_models import PtychographyDatasetRaster
+
+    ds = Dataset4dstem.from_array(arr, sampling=[1, 1, 0.1, 0.1], units=["A", "A", "A^-1", "A^-1"])
+    p = PtychographyDatasetRaster.from_dataset4dstem(ds, verbose=0)
+    kw = dict(com_fit_function="none", force_com_rotation=0.0, force_com_transpose=False, plot_rotation=False, plot_com=False, obj_padding_px=(8, 8))
+    if sm["preprocess_vectorized"]:
+        kw["vectorized"] = vectorized
+    with warnings.catch_warnings():
+        warnings.simplefilter("ignore")
+        p.preprocess(**kw)
+    return np.asarray(p.com_measured, dtype=np.float64)
+
+
+def eval_dtype(case):
+    t = Tally()
+    fails, points, status = dtype_case(case)
+    key0 = [case["scan"], case["det"], case["dtype"], case["member"], case["layout"]]
+    for key, nontriv in points:
+        t.case(key=key0 + key, nontrivial=nontriv, outcome=None)
+    for cls, sub, msg in fails:
+        t.fail(cls, sub, msg)
+    t.extra["dtype_configurations"] += 1
+    t.extra["origin_model_calls_rejecting_the_layout"] += sum(1 for k, _ in points if k[0] == "om_rejects_layout")
+    t.extra[f"dtype_{case['dtype']}_{status}"] += 1
+    if case["dtype"] == "float16" and case["member"] == "high" and case["layout"] == "strided_slice" and tuple(case["det"]) == (6, 8):
+        t.sample({"dtype_configuration": key0, "paths_and_batch_sizes": len(points)}, cap=1)
+    return t
+
+
 # ----------------------------------------------------------------------------- run / replay
 def run(ctx):
     warnings.simplefilter("ignore")
@@ -903,6 +1078,7 @@ def run(ctx):
         "preprocess is run with force_com_rotation=0, force_com_transpose=False, no plots, obj_padding_px=(8,8) (tiny problems need padding); these do not enter the centre of mass",
         "a plane through a scan with an axis of length 1 is not unique, but its values at the scan positions are; such scans stay in the lattice",
         "integer fitted origin -> roll: the origin model is judged with the fitted origins rounded to the integers they equal within 1e-4 (shift_origin_to is exact only for bit-exact integers: for an origin such as 2.99999 the wrapped row is interpolated against zero padding; counted in count_origin_model_unrounded_fitted_origin_loses_wrapped_pixels, not a verdict); the dataset model is judged with its own fitted origins",
+        "input dtype x layout: a dtype or layout that the library rejects on HEAD is counted, not flagged (complex64 by both classes; Fortran-ordered and transposed-view stacks by CenterOfMassOriginModel.calculate_origin when both scan axes are > 1: count_origin_model_calls_rejecting_the_layout); every other rejection is a failure (dtype_accepted)",
         "a shift_origin_to call with a target other than the corner is outside the property and only appears as an EARLIER call of a history",
     )
 
@@ -951,6 +1127,17 @@ def run(ctx):
         if intorigin_fits(sc, d, k)
     ]
     mE = ctx.pmap(eval_intorigin, io_items, chunk=1, label="integer origin -> roll, both classes")
+    # input dtype x memory layout of the 4-D stack, both classes, both dataset paths, every batch size
+    dt_items = [
+        {"part": "dtype", "scan": list(sc), "det": list(d), "dtype": dt, "member": mb, "layout": lay}
+        for sc, d, dt, lay in itertools.product(DT_SCANS, DT_DETS, DTYPES + DTYPES_REJECTED_ON_HEAD, LAYOUTS)
+        for mb in (["low"] if dt in ("bool",) + tuple(DTYPES_REJECTED_ON_HEAD) else ["low", "high"])
+    ]
+    mG = ctx.pmap(eval_dtype, dt_items, chunk=2, label="dtype x layout")
+    accepted = {dt: int(mG.extra[f"dtype_{dt}_accepted"]) for dt in DTYPES + DTYPES_REJECTED_ON_HEAD}
+    rejected = {dt: int(mG.extra[f"dtype_{dt}_rejected"]) for dt in DTYPES + DTYPES_REJECTED_ON_HEAD}
+    if sum(accepted[dt] for dt in DTYPES) < len(DTYPES) * 16:
+        raise Broken(f"dtype part degenerate: accepted configurations per dtype {accepted}")
     # call histories on freshly imported modules
     depth = 2 if ctx.quick else 3
     mF = ctx.pmap(eval_history, hist_calls(), chunk=1, label="call histories", seed=ctx.seed, depth=depth)
@@ -973,18 +1160,25 @@ def run(ctx):
             "plane_coefficients": {"slopes": PLANE_SLOPES, "offsets": PLANE_OFFSETS, "constants_row_x_column": CONSTANTS},
             "fit_paths": ["ptycho_utils.fit_origin(mask=all true)", "CenterOfMassOriginModel.fit_origin_background", "preprocess(com_fit_function).com_fit", "calculate_origin + fit_origin_background"],
             "shift": "every integer origin of the detector x {uniform, per-pattern} x every batch size x {bilinear, nearest}",
+            "input_dtypes": DTYPES + [f"{d} (rejected on HEAD: counted, not flagged)" for d in DTYPES_REJECTED_ON_HEAD],
+            "input_dtype_members": "integer counts exact in every dtype; 'low' (pattern totals < 1000) and 'high' (scaled per dtype: float16 totals exceed 65504, uint8 up to 240, uint16 up to 60000, int32/int64 up to 3e5 per pixel)",
+            "input_layouts": LAYOUTS,
+            "input_dtype_lattice": {"scans": [list(x) for x in DT_SCANS], "detectors": [list(x) for x in DT_DETS], "paths": "calculate_origin x every batch size, preprocess(vectorized=True/False).com_measured"},
             "detector_shapes_large_prime_factors": [list(d) for d in DETS_BIG],
             "shift_array": "every integer shift |r|<H, |c|<W x {Fourier, bilinear} on all detector shapes",
             "integer_origin_roll": {"scans": [list(x) for x in io_scans], "origins_x_fit": ["constant/constant", "constant/plane", "planar/plane"], "paths": ["calculate_origin+fit_origin_background+shift_origin_to", "preprocess(vectorized, bilinear).centered_amplitudes/centered_intensities"]},
             "call_history": {"calls": hist_calls(), "histories": "every single call and ordered pair" + ("" if ctx.quick else ", every triple (middle call: every 3rd member)") + "; ptycho_utils/origin_models/dataset_models re-imported before each history; last call judged"},
         },
-        bounds={"tolerance_com_px": TOL_COM, "tolerance_fit": TOL_FIT, "tolerance_shift_relative": TOL_SHIFT, "tolerance_dataset_shift_relative": TOL_DSHIFT, "nearest_mode": "exact"},
+        bounds={"tolerance_com_px": TOL_COM, "tolerance_fit": TOL_FIT, "tolerance_shift_relative": TOL_SHIFT, "tolerance_dataset_shift_relative": TOL_DSHIFT, "tolerance_com_px_dtype_part": TOL_DTYPE, "nearest_mode": "exact"},
         com_points=int(mA.n),
         fit_cases=int(mB.n),
         shift_calls=int(mC.n),
         shift_array_calls=int(mD.n),
         integer_origin_pipelines=int(mE.n),
         call_histories=int(mF.n),
+        dtype_layout_points=int(mG.n),
+        dtype_configurations_accepted=accepted,
+        dtype_configurations_rejected_by_the_library=rejected,
         call_history_depth=depth,
     )
     if mA.extra["com_configurations_swap_visible"] < 0.9 * mA.extra["com_configurations"]:
@@ -1006,6 +1200,9 @@ def replay(ctx, case):
         fails, _ = shift_case(case, verbose=True)
     elif part == "shift_array":
         fails, _ = shift_array_case(case, verbose=True)
+    elif part == "dtype":
+        print(f"  {case['dtype']} stack ({case['member']} counts), layout {case['layout']}, scan {case['scan']} det {case['det']} (all paths and batch sizes re-run)")
+        fails, _, _ = dtype_case(case, verbose=True)
     elif part == "intorigin":
         fails, _ = intorigin_case(case, verbose=True)
     elif part == "history":
